@@ -108,6 +108,30 @@ def lookup_case(sel, depth):
                 return c if ci.name == 'eq' else z3.Not(c)
             return (sv(x) == sv(y)) ^ (ci.name == 'ne')
         mdl.overrides.insert(0, (__import__('re').compile(r'<&?&?str as PartialEq(<&?&?str>)?>::(eq|ne)$'), streq))
+
+        def strcmp(it, ci, a, d):
+            # the universe is sorted in str order (byte-wise), so the order of the symbolic word against a constant is the
+            # order of the indices (constants outside the universe: their insertion point)
+            import bisect
+            from models import ordering, some
+            x, y = deref(a[0]), deref(a[1])
+            flip = False
+            if type(y) is Opaque and y.kind == 'SymWord':
+                x, y, flip = y, x, True
+            if type(x) is Opaque and x.kind == 'SymWord':
+                k = sv(y)
+                if k in idx:
+                    c = it.choose([x.data < idx[k], x.data == idx[k], x.data > idx[k]], 'wordcmp') - 1
+                else:
+                    ins = bisect.bisect_left(universe, k)
+                    c = -1 if it.decide(x.data < ins, 'wordcmp') else 1
+                c = -c if flip else c
+            else:
+                bx, by = sv(x).encode(), sv(y).encode()
+                c = -1 if bx < by else (0 if bx == by else 1)
+            r = ordering(c)
+            return some(r) if ci.name == 'partial_cmp' else r
+        mdl.overrides.insert(0, (__import__('re').compile(r'<&?&?(str|T) as (Partial)?Ord(<&?&?str>)?>::(cmp|partial_cmp)$'), strcmp))
         ex = Explorer(E.prog(), mdl, body, max_paths=2000, step_limit=80_000_000)
         res = ex.run()
         if ex.truncated:
